@@ -302,3 +302,41 @@ def run_z3_strabs(ob, timeout_ms=6000):
     except (_NoAbs, z3.Z3Exception, Exception):
         return "unknown", time.time() - t
     return ("unsat" if r == z3.unsat else "unknown"), time.time() - t
+
+
+
+class TextOb:
+    """an obligation shipped between processes as SMT-LIB text"""
+
+    def __init__(self, text):
+        fs = z3.parse_smt2_string(text)
+        self.hyps = list(fs)
+        self.goal = z3.BoolVal(False)  # the text already contains the negated goal
+        self._text = text
+        self.verdict = self.backend = self.model = self.reason = None
+        self.time = 0.0
+
+    def formula(self):
+        return z3.And(self.hyps)
+
+
+def discharge_text(args):
+    text, both, use_cvc5 = args
+    t = time.time()
+    try:
+        ob = TextOb(text)
+        discharge(ob, both=both, use_cvc5=use_cvc5)
+        model = None
+        if ob.verdict == "refuted" and ob.model is not None:
+            model = {}
+            for d in ob.model.decls():
+                n = d.name()
+                if "!" in n and not n.startswith(("H!", "new_")):
+                    continue
+                sv = str(ob.model[d])
+                model[n] = sv[:200]
+                if len(model) > 60:
+                    break
+        return {"verdict": ob.verdict, "backend": ob.backend, "time": round(time.time() - t, 3), "reason": ob.reason, "model": model}
+    except Exception as e:  # noqa
+        return {"verdict": "unknown", "backend": None, "time": round(time.time() - t, 3), "reason": f"discharge error: {e}", "model": None}
